@@ -188,6 +188,23 @@ func (w *vWorld) mutate(genuine, other, signer, mut string, rng *mrand.Rand) str
 		claims["iss"] = "https://evil.example.net"
 	case "aud":
 		claims["aud"] = []string{"https://evil.example.net"}
+	case "isslike":
+		if v, ok := claims["iss"].(string); ok {
+			claims["iss"] = v + []string{":8443", ".staging.internal"}[rng.Intn(2)]
+		}
+	case "audlike":
+		switch v := claims["aud"].(type) {
+		case []interface{}:
+			if len(v) > 0 {
+				if s0, ok := v[0].(string); ok {
+					claims["aud"] = []string{s0 + ".staging.internal"}
+				}
+			}
+		case string:
+			claims["aud"] = []string{v + ":8443"}
+		}
+	case "nbfjust":
+		claims["nbf"] = now + 90
 	case "nbf":
 		claims["nbf"] = now + 3600
 	case "exp":
